@@ -182,6 +182,15 @@ func (p *Program) replayCandidateList(fr *FuncResult, cands []map[string]string,
 		ok := true
 		for i, prm := range fn.Params {
 			nm := fr.ParamNames[i]
+			if be := boundArgExpr(fr.Contract, nm, fn.Pkg.Pkg.Name()); be != "" {
+				// instance contract: the parameter is the value of the bind expression itself
+				me.desc = append(me.desc, nm+"="+be)
+				argExprs = append(argExprs, be)
+				if ip, in := p.boundArgImport(be); ip != "" {
+					imports[ip] = in
+				}
+				continue
+			}
 			e, good := me.goExpr(nm, ex.ParamVals[nm], prm.Type())
 			if !good {
 				ok = false
